@@ -810,8 +810,11 @@ def crash_states_kill(h, torn=True):
                "cover": list(published)}
 
 
-def power_plan(ctx, h, rng, all_upto, samples):
-    """for every cut of the model step list: the masks / data choices to try.  -> list of request dicts"""
+def power_plan(ctx, h, rng, all_upto, samples, full_big=0):
+    """for every cut of the model step list: the masks / data choices to try.  -> list of request dicts.
+    All subsets of the pending operations when there are at most `all_upto` of them; additionally all subsets
+    (up to 12 pending operations) at `full_big` randomly chosen bigger cuts; otherwise none / all / each single
+    operation alone / each single operation dropped / random ones up to `samples`."""
     n = len(h.model_steps)
     if getattr(h, "explicit", False):
         hist = "| " + "; ".join(st for _, st in h.model_steps)
@@ -823,6 +826,10 @@ def power_plan(ctx, h, rng, all_upto, samples):
     reqs = []
     durable_cover = []
     last_renamed = None
+    nps = [len([x for x in pend[c].split(" || ")[0].split("; ") if x]) for c in range(n + 1)]
+    big = [c for c in range(n + 1) if all_upto < nps[c] <= 12]
+    rng.shuffle(big)
+    full_cuts = set(big[:full_big])
     for c in range(n + 1):
         if c > 0:
             seg, s = h.model_steps[c - 1]
@@ -842,7 +849,7 @@ def power_plan(ctx, h, rng, all_upto, samples):
                 unsynced.append((i, dl, vl))
         np_ = len(pops)
         masks = set()
-        if np_ <= all_upto:
+        if np_ <= all_upto or c in full_cuts:
             for m in range(1 << np_):
                 masks.add(format(m, "0%db" % np_)[::-1] if np_ else "")
         else:
@@ -1189,7 +1196,8 @@ def main(tier):
         vlib.static_stage(_Spec, R)
         ctx = Ctx(tier, R)
         ctx.disagreements = []
-        nrand, maxb, all_upto, samples, nmut = {"quick": (7, 4, 4, 10, 30), "thorough": (120, 8, 12, 100, 300)}[tier]
+        nrand, maxb, all_upto, samples, nmut, full_big = {"quick": (7, 4, 4, 10, 30, 0),
+                                                            "thorough": (60, 8, 6, 40, 200, 2)}[tier]
         hists = [list(x) for x in DIRECTED]
         for f in sorted(os.listdir(os.path.join(vlib.VERIF, "corpus", PROP))) if os.path.isdir(os.path.join(vlib.VERIF, "corpus", PROP)) else []:
             for l in open(os.path.join(vlib.VERIF, "corpus", PROP, f)):
@@ -1227,7 +1235,7 @@ def main(tier):
                 if h.reordered:
                     R.count("histories-with-normalised-cleanup-order")
             eval_states(c, h, list(crash_states_kill(h)), "k")
-            eval_states(c, h, power_plan(c, h, r2, all_upto, samples), "p", cont_every=40)
+            eval_states(c, h, power_plan(c, h, r2, all_upto, samples, full_big), "p", cont_every=40)
             eval_mutated(c, h, r2, nmut)
             shutil.rmtree(c.scratch, ignore_errors=True)
         with ThreadPoolExecutor(max_workers=8) as ex:
